@@ -53,6 +53,9 @@ func BuildFeaturePkg(f Feature, idx int, family, tag string, names *Names, withS
 	if f.Nest {
 		holder := &spec.Message{Name: "Holder", Nested: b.Msgs, Enums: b.Enums, EntriesFirst: true,
 			Fields: []*spec.Field{spec.F("labels", 1, spec.String).MapOf(spec.String), spec.F("holder_note", 2, spec.String)}}
+		if f.NestEmpty {
+			holder.Fields, holder.EntriesFirst = nil, false
+		}
 		file.Messages, file.Enums = []*spec.Message{holder}, nil
 		rootFull = pkg + ".Holder." + rootLocal
 	}
